@@ -254,6 +254,36 @@ func (c *C13Case) Run() string {
 		if m := metaInvariant(t); m != "" {
 			return desc + ": after Reshape: " + m
 		}
+		// whatever the view did not cover is untouched
+		if !b.Detached {
+			inView := map[int]bool{}
+			for _, j := range b.Idx {
+				inView[j] = true
+			}
+			for j, v := range b.RootNow() {
+				if !inView[j] && !bitEqVal(v, b.RootE[j]) {
+					return fmt.Sprintf("%s: Reshape(%v) changed element %d of the parent, which lies outside the reshaped view, from %s to %s", desc, c.Target, j, fmtVal(b.RootE[j]), fmtVal(v))
+				}
+			}
+		}
+		// the reshaped tensor is a tensor like any other: observers that trust its flags agree with it, and
+		// a transposition of it is the transposition the shape calculator predicts (nothing stale is pending)
+		if m := derivedProbe(t, got); m != "" {
+			return fmt.Sprintf("%s: after Reshape(%v): %s", desc, c.Target, m)
+		}
+		if len(c.Target) >= 2 && prod(c.Target) > 1 && !cm {
+			p := revPerm(len(c.Target))
+			if perr := t.T(p...); perr == nil {
+				wantT := got.Permute(p)
+				if m := compareAt(t, wantT, bitEqVal); m != "" {
+					return fmt.Sprintf("%s: after Reshape(%v), T(%v): %s", desc, c.Target, p, m)
+				}
+				t.UT()
+				if m := compareAt(t, got, bitEqVal); m != "" {
+					return fmt.Sprintf("%s: after Reshape(%v), T(%v) and UT(): %s", desc, c.Target, p, m)
+				}
+			}
+		}
 	}
 	return ""
 }
@@ -367,7 +397,7 @@ func TestC13(t *testing.T) {
 			return &C13Case{Kind: "T", Shape: shape, L: genLayoutKind(rt, lk, len(shape), "l"), Perm: genPerm(rt, len(shape), "perm")}
 		})
 	}
-	for _, lk := range []string{"contig", "lazyT", "sliced", "leadsliced", "stepsliced", "materialized", "clonedview", "cmraw", "cmconv", "Tsliced"} {
+	for _, lk := range []string{"contig", "lazyT", "sliced", "leadsliced", "stepsliced", "materialized", "clonedview", "cmraw", "cmconv", "Tsliced", "slicedT", "picked", "pickslice", "physT"} {
 		lk := lk
 		cell(t, "C13", "C13.reshapeall", "reshape/"+lk, nCases(40, 800), func(rt *rapid.T) Case {
 			shape := genShape(rt, 0, 4, 4, "s")
